@@ -23,6 +23,11 @@ type solverCfg struct {
 
 var keepFiles bool
 
+var knownQuick = map[string]bool{}
+
+// siteCoversComplete: also run the complete solver modes on call-site covers (thorough tier).
+var siteCoversComplete bool
+
 var (
 	z3new = solverCfg{name: "z3-5.1.0/ematch", bin: "z3-new", args: func(t int) []string {
 		return []string{"-smt2", fmt.Sprintf("-t:%d", t), "smt.auto_config=false", "smt.mbqi=false"}
@@ -71,84 +76,117 @@ func firstVerdict(out string) string {
 func dischargeVC(vc *VC, workDir string, quickMs, slowMs int, sem chan struct{}) {
 	os.MkdirAll(workDir, 0o755)
 	base := filepath.Join(workDir, sanitizeFile(vc.Func))
-	// ---- phase 1
-	var b strings.Builder
-	b.WriteString(prelude)
-	for _, l := range vc.glines {
-		b.WriteString(l)
-		b.WriteByte('\n')
+	// ---- phase 1: incremental sessions. A large function is split over several sessions that each replay the whole
+	// assertion stream but only check their share of the obligations (interleaved), so they run in parallel.
+	nsess := (len(vc.obls) + 119) / 120
+	if nsess > 6 {
+		nsess = 6
 	}
-	pos := 0
-	for _, o := range vc.obls {
-		for ; pos < o.NLines; pos++ {
-			b.WriteString(vc.lines[pos])
-			b.WriteByte('\n')
-		}
-		b.WriteString("(push 1)\n")
-		b.WriteString("(assert " + o.Reach + ")\n")
-		b.WriteString("(assert (not " + o.Goal + "))\n")
-		b.WriteString(fmt.Sprintf("(echo \"@@ %d\")\n", indexOf(vc.obls, o)))
-		b.WriteString("(check-sat)\n(pop 1)\n")
+	if nsess < 1 {
+		nsess = 1
 	}
-	f1 := base + ".all.smt2"
-	os.WriteFile(f1, []byte(b.String()), 0o644)
-	sem <- struct{}{}
-	total := quickMs * (len(vc.obls) + 1)
-	ctx, cancel := context.WithTimeout(context.Background(), time.Duration(total+5000)*time.Millisecond)
-	cmd := exec.CommandContext(ctx, z3new.bin, "-smt2", fmt.Sprintf("-t:%d", quickMs), "smt.auto_config=false", "smt.mbqi=false", f1)
-	var out bytes.Buffer
-	cmd.Stdout = &out
-	cmd.Stderr = &out
-	t0 := time.Now()
-	cmd.Run()
-	cancel()
-	<-sem
-	el := time.Since(t0).Seconds()
-	// parse
-	lines := strings.Split(out.String(), "\n")
-	cur := -1
-	n1 := 0
-	for _, l := range lines {
-		l = strings.TrimSpace(l)
-		if strings.HasPrefix(l, "@@ ") {
-			fmt.Sscanf(l, "@@ %d", &cur)
-			continue
-		}
-		if cur >= 0 && cur < len(vc.obls) {
-			o := vc.obls[cur]
-			switch l {
-			case "unsat", "sat", "unknown", "timeout":
-				if o.Result == "" {
-					o.Result = l
-					o.Backend = z3new.name + "/incremental"
-					n1++
+	var mu sync.Mutex
+	var wg1 sync.WaitGroup
+	for sidx := 0; sidx < nsess; sidx++ {
+		wg1.Add(1)
+		go func(sidx int) {
+			defer wg1.Done()
+			var b strings.Builder
+			b.WriteString(prelude)
+			for _, l := range vc.glines {
+				b.WriteString(l)
+				b.WriteByte('\n')
+			}
+			pos := 0
+			mine := 0
+			for oi, o := range vc.obls {
+				if oi%nsess != sidx {
+					continue
 				}
-			default:
-				if strings.HasPrefix(l, "(error") && o.Result == "" {
-					o.Result = "error"
-					o.Output = l
-					o.Backend = z3new.name + "/incremental"
+				mine++
+				for ; pos < o.NLines; pos++ {
+					b.WriteString(vc.lines[pos])
+					b.WriteByte('\n')
+				}
+				b.WriteString("(push 1)\n")
+				b.WriteString("(assert " + o.Reach + ")\n")
+				b.WriteString("(assert (not " + o.Goal + "))\n")
+				b.WriteString(fmt.Sprintf("(echo \"@@ %d\")\n", oi))
+				if o.Cover && o.PreReach != "" {
+					// call-site covers: a shallow look is enough here (inconsistencies show up at once; a satisfiable
+					// state would otherwise cost the whole timeout)
+					b.WriteString(fmt.Sprintf("(set-option :timeout 200)\n(check-sat)\n(set-option :timeout %d)\n(pop 1)\n", quickMs))
+				} else {
+					b.WriteString("(check-sat)\n(pop 1)\n")
 				}
 			}
-		}
-	}
-	if n1 > 0 {
-		per := el / float64(n1)
-		for _, o := range vc.obls {
-			if o.Backend == z3new.name+"/incremental" {
-				o.Secs = per
+			f1 := fmt.Sprintf("%s.all%d.smt2", base, sidx)
+			os.WriteFile(f1, []byte(b.String()), 0o644)
+			sem <- struct{}{}
+			total := quickMs * (mine + 1)
+			ctx, cancel := context.WithTimeout(context.Background(), time.Duration(total+5000)*time.Millisecond)
+			cmd := exec.CommandContext(ctx, z3new.bin, "-smt2", fmt.Sprintf("-t:%d", quickMs), "smt.auto_config=false", "smt.mbqi=false", f1)
+			var out bytes.Buffer
+			cmd.Stdout = &out
+			cmd.Stderr = &out
+			t0 := time.Now()
+			cmd.Run()
+			cancel()
+			<-sem
+			el := time.Since(t0).Seconds()
+			if !keepFiles {
+				os.Remove(f1)
 			}
-		}
+			// parse
+			mu.Lock()
+			defer mu.Unlock()
+			lines := strings.Split(out.String(), "\n")
+			cur := -1
+			var got []*Obl
+			for _, l := range lines {
+				l = strings.TrimSpace(l)
+				if strings.HasPrefix(l, "@@ ") {
+					fmt.Sscanf(l, "@@ %d", &cur)
+					continue
+				}
+				if cur >= 0 && cur < len(vc.obls) {
+					o := vc.obls[cur]
+					switch l {
+					case "unsat", "sat", "unknown", "timeout":
+						if o.Result == "" {
+							o.Result = l
+							o.Backend = z3new.name + "/incremental"
+							got = append(got, o)
+						}
+					default:
+						if strings.HasPrefix(l, "(error") && o.Result == "" {
+							o.Result = "error"
+							o.Output = l
+							o.Backend = z3new.name + "/incremental"
+						}
+					}
+				}
+			}
+			for _, o := range got {
+				o.Secs = el / float64(len(got))
+			}
+		}(sidx)
 	}
+	wg1.Wait()
 	// ---- phase 2: everything that is not decided as expected
 	var wg sync.WaitGroup
 	for i, o := range vc.obls {
 		if o.Cover {
 			// vacuity guard: E-matching alone rarely refutes; also ask the complete modes (short timeout)
-			if o.Result == "unsat" {
+			if o.Result == "unsat" && o.PreReach == "" {
 				continue
 			}
+			if o.PreReach != "" && o.Result != "unsat" && !siteCoversComplete {
+				continue // quick tier: call-site covers are decided by the E-matching session only
+			}
 		} else if o.Result == "unsat" {
+			continue
+		} else if knownQuick[o.Name] && o.Result != "" {
 			continue
 		}
 		wg.Add(1)
@@ -208,6 +246,41 @@ func dischargeVC(vc *VC, workDir string, quickMs, slowMs int, sem chan struct{})
 			if o.Cover {
 				if !keepFiles {
 					os.Remove(file)
+				}
+				if o.Result == "unsat" && o.PreReach != "" {
+					// Unreachable after the call. Dead code (already unreachable before the call) is fine; an
+					// inconsistency introduced by the assumed contract is not. Decide by unsat core: name the
+					// assertions the call contributed; the state is contract-inconsistent iff the core needs one.
+					pfile := fmt.Sprintf("%s.%d.core.smt2", base, i)
+					var pq strings.Builder
+					pq.WriteString("(set-option :produce-unsat-cores true)\n(set-option :smt.core.minimize true)\n")
+					pq.WriteString(prelude)
+					for _, l := range vc.glines {
+						pq.WriteString(l)
+						pq.WriteByte('\n')
+					}
+					for k, l := range vc.lines[:o.NLines] {
+						// (definitions of the reach flag "r!n = reach && requires" are not assumptions: the requires is an obligation)
+						if k >= o.PreNLines && strings.HasPrefix(l, "(assert ") && !strings.HasPrefix(l, "(assert (= r!") && strings.HasSuffix(l, ")") && !strings.Contains(l, "\n") {
+							pq.WriteString(fmt.Sprintf("(assert (! %s :named CALLFACT%d))\n", l[len("(assert "):len(l)-1], k))
+						} else {
+							pq.WriteString(l)
+							pq.WriteByte('\n')
+						}
+					}
+					pq.WriteString("(assert " + o.Reach + ")\n(check-sat)\n(get-unsat-core)\n")
+					os.WriteFile(pfile, []byte(pq.String()), 0o644)
+					sem <- struct{}{}
+					out, _, _ := runSolver(z3new, pfile, 10000)
+					<-sem
+					if firstVerdict(out) == "unsat" && !strings.Contains(out, "CALLFACT") {
+						o.Result = "dead"
+					} else if firstVerdict(out) != "unsat" {
+						o.Result = "unknown" // could not reproduce: no alarm
+					}
+					if !keepFiles {
+						os.Remove(pfile)
+					}
 				}
 				return
 			}
